@@ -210,25 +210,55 @@ func (r *rewriter) stmt(s ast.Stmt) ast.Stmt {
 }
 
 func (r *rewriter) mapRange(x *ast.RangeStmt) ast.Stmt {
+	// for k, v := range m { body }   becomes
+	//
+	//	{
+	//		k, v := vmap.Zero(m)            // ONE pair of variables for the whole loop: the repository's go.mod
+	//		_, _ = k, v                     // language version (< 1.22) gives range loops shared variables, and a
+	//		for _, _vkN := range vmap.Keys(m) { // closure capturing them must keep seeing that
+	//			k, v = _vkN, m[_vkN]
+	//			body
+	//		}
+	//	}
 	r.needMap = true
 	r.counts["maprange"]++
-	keyName := "_vk" + strconv.Itoa(r.tmp)
+	tmpKey := "_vk" + strconv.Itoa(r.tmp)
 	r.tmp++
-	if id, ok := x.Key.(*ast.Ident); ok && id.Name != "_" {
-		keyName = id.Name
+	blank := func(e ast.Expr) bool {
+		if e == nil {
+			return true
+		}
+		id, ok := e.(*ast.Ident)
+		return ok && id.Name == "_"
 	}
-	var pre []ast.Stmt
-	if x.Value != nil {
-		if id, ok := x.Value.(*ast.Ident); !ok || id.Name != "_" {
-			pre = append(pre, &ast.AssignStmt{Lhs: []ast.Expr{x.Value}, Tok: x.Tok, Rhs: []ast.Expr{&ast.IndexExpr{X: x.X, Index: ast.NewIdent(keyName)}}})
+	var pre, assign []ast.Stmt
+	if x.Tok == token.DEFINE && !(blank(x.Key) && blank(x.Value)) {
+		k, v := ast.Expr(ast.NewIdent("_")), ast.Expr(ast.NewIdent("_"))
+		if !blank(x.Key) {
+			k = x.Key
+		}
+		if !blank(x.Value) {
+			v = x.Value
+		}
+		pre = append(pre, &ast.AssignStmt{Lhs: []ast.Expr{k, v}, Tok: token.DEFINE, Rhs: []ast.Expr{call(sel("vmap", "Zero"), x.X)}})
+		for _, e := range []ast.Expr{x.Key, x.Value} {
+			if !blank(e) {
+				pre = append(pre, &ast.AssignStmt{Lhs: []ast.Expr{ast.NewIdent("_")}, Tok: token.ASSIGN, Rhs: []ast.Expr{e}})
+			}
 		}
 	}
-	tok := x.Tok
-	if tok == token.ILLEGAL {
-		tok = token.DEFINE
+	if !blank(x.Key) {
+		assign = append(assign, &ast.AssignStmt{Lhs: []ast.Expr{x.Key}, Tok: token.ASSIGN, Rhs: []ast.Expr{ast.NewIdent(tmpKey)}})
 	}
-	body := &ast.BlockStmt{List: append(pre, x.Body.List...)}
-	return &ast.RangeStmt{Key: ast.NewIdent("_"), Value: ast.NewIdent(keyName), Tok: token.DEFINE, X: call(sel("vmap", "Keys"), x.X), Body: body}
+	if !blank(x.Value) {
+		assign = append(assign, &ast.AssignStmt{Lhs: []ast.Expr{x.Value}, Tok: token.ASSIGN, Rhs: []ast.Expr{&ast.IndexExpr{X: x.X, Index: ast.NewIdent(tmpKey)}}})
+	}
+	body := &ast.BlockStmt{List: append(assign, x.Body.List...)}
+	loop := &ast.RangeStmt{Key: ast.NewIdent("_"), Value: ast.NewIdent(tmpKey), Tok: token.DEFINE, X: call(sel("vmap", "Keys"), x.X), Body: body}
+	if len(pre) == 0 {
+		return loop
+	}
+	return &ast.BlockStmt{List: append(pre, loop)}
 }
 
 func (r *rewriter) selectStmt(x *ast.SelectStmt) ast.Stmt {
